@@ -237,8 +237,10 @@ OPT_INVALID = [
     {"psi_interpolation_method": "cubic-ish"}, {"xpoint_poloidal_spacing_length": -0.1},
     {"finecontour_overdamping_factor": 1.5}, {"orthogonal": "maybe"},
 ]
-OPT_UNKNOWN = [{"nx_cor": 4}, {"grid_file": "x.nc"}, {"target_poloidal_spacing_length": 1},
-               {"Orthogonal": True}, {"plot_mesh": False}]
+# keys that no options factory defines and that the scripts do not read themselves
+# (grid_file / plot_* ARE read by hypnotoad-geqdsk and are therefore not "unknown")
+OPT_UNKNOWN = [{"nx_cor": 4}, {"target_poloidal_spacing_length": 1}, {"Orthogonal": True},
+               {"finecontour_nfine": 50}, {"y_boundary_guard": 1}, {"psinorm_edge": 1.1}]
 OPT_INCONSISTENT = [{"psinorm_sol": 1.1}, {"nx_core": 4}, {"orthogonal": False},
                     {"finecontour_Nfine": 50}, {"refine_atol": 1e-7},
                     {"xpoint_poloidal_spacing_length": 0.07}]
